@@ -247,7 +247,7 @@ fn supervise(prop: &str, tier: Tier, seed: u64) -> i32 {
     std::fs::create_dir_all(format!("{}/evidence", VERIF)).ok();
     let budget_s: f64 = std::env::var("VERIF_BUDGET_S").ok().and_then(|s| s.parse().ok()).unwrap_or(match tier {
         Tier::Quick => 40.0,
-        Tier::Thorough => 1200.0,
+        Tier::Thorough => 600.0,
     });
     let watchdog = Duration::from_secs_f64(budget_s * 6.0 + 900.0);
     let mut jobs: Vec<Job> = Vec::new();
